@@ -1798,9 +1798,9 @@ impl TypeChecker {
 //@   endghost
 //@   loop 1 binder it
                     invariant
+                        xs1.len() == ys1.len(), it.seq().len() == xs1.len(), //# C03,C05 sub_unify.loop1.tuple_lengths_match
                         self.inv2(), self.grows(old(self)), self.types@.len() >= n1,
                         vstd::std_specs::btree::key_obeys_cmp_spec::<(TyID, TyID)>(),
-                        xs1.len() == ys1.len(), it.seq().len() == xs1.len(),
                         forall|i: int| 0 <= i < xs1.len() ==> *(#[trigger] it.seq()[i]).0 == xs1[i] && *it.seq()[i].1 == ys1[i],
                         forall|k: int| 0 <= k < xs1.len() ==> (#[trigger] xs1[k]).0 < n1 && (#[trigger] ys1[k]).0 < n1,
 //@   endloop
@@ -1809,9 +1809,9 @@ impl TypeChecker {
 //@   endghost
 //@   loop 2 binder it
                     invariant
+                        xs2.len() == ys2.len(), it.seq().len() == xs2.len(), //# C03 sub_unify.loop2.arities_match
                         self.inv2(), self.grows(old(self)), self.types@.len() >= n2,
                         vstd::std_specs::btree::key_obeys_cmp_spec::<(TyID, TyID)>(),
-                        xs2.len() == ys2.len(), it.seq().len() == xs2.len(),
                         forall|i: int| 0 <= i < xs2.len() ==> *(#[trigger] it.seq()[i]).0 == xs2[i] && *it.seq()[i].1 == ys2[i],
                         forall|k: int| 0 <= k < xs2.len() ==> (#[trigger] xs2[k]).0 < n2 && (#[trigger] ys2[k]).0 < n2,
 //@   endloop
